@@ -196,6 +196,10 @@ Fixpoint sem_node (callf : sem_call_handler) (media at_ : str) (parent : option 
       (* an interpolation in the selector is replaced by the text of the variable's value *)
       sbind (smap (fun t => match t with
                             | "@" :: "{" :: _ => sbind (sval_toks value_fuel e [VVar t]) (fun l => SOk (concat_str l))
+                            | "@" :: _ :: _ =>           (* a variable as the value of a media feature: its value where it is written *)
+                                if is_media_sel sel0 && negb (str_eqb t $"@media")
+                                then sbind (sval_toks value_fuel e [VVar t]) (fun l => SOk (concat_str l))
+                                else SOk t
                             | _ => SOk t
                             end) sel0) (fun sel =>
       if is_media_sel sel then
